@@ -240,6 +240,71 @@ pub fn determinism(ctx: &Ctx, rep: &mut Report) {
             rep.inconclusive("a key generation thread died".into());
         }
     }
+    // (e) histories over the seeds KNOWN to take rare key-generation branches (the committed
+    // regression seeds of C05/C16: their search meets a candidate whose F or G does not fit the
+    // encoding and is discarded): all of them in one thread, twice over, both parameter sets in
+    // both orders, against the same seeds generated alone in fresh threads. State left behind by
+    // a rare branch (a fallback switched on, a flag never reset) changes what a later seed gives.
+    {
+        let r5: Vec<[u8; 32]> = super::c05::REGRESSION_512.iter().map(|&i| counter_seed(i)).collect();
+        let r10: Vec<[u8; 32]> = super::c05::REGRESSION_1024.iter().map(|&i| counter_seed(i)).collect();
+        let mut fresh: Vec<std::thread::JoinHandle<(bool, [u8; 32], Result<Fp, String>)>> = vec![];
+        for s in r5.iter().cloned() {
+            fresh.push(std::thread::spawn(move || (false, s, fingerprint::<F512>(s))));
+        }
+        for s in r10.iter().cloned() {
+            fresh.push(std::thread::spawn(move || (true, s, fingerprint::<F1024>(s))));
+        }
+        let orders: Vec<(&str, bool)> = vec![("rare-branch history (512 seeds first)", false), ("rare-branch history (1024 seeds first)", true)];
+        let mut hist = vec![];
+        for (name, big_first) in orders {
+            let (r5, r10) = (r5.clone(), r10.clone());
+            hist.push(std::thread::spawn(move || {
+                let mut out: Vec<(bool, [u8; 32], String, Result<Fp, String>)> = vec![];
+                for round in 0..2 {
+                    let mut run5 = |out: &mut Vec<(bool, [u8; 32], String, Result<Fp, String>)>| {
+                        for s in &r5 {
+                            out.push((false, *s, format!("{}, round {}", name, round), fingerprint::<F512>(*s)));
+                        }
+                    };
+                    let mut run10 = |out: &mut Vec<(bool, [u8; 32], String, Result<Fp, String>)>| {
+                        for s in &r10 {
+                            out.push((true, *s, format!("{}, round {}", name, round), fingerprint::<F1024>(*s)));
+                        }
+                    };
+                    if big_first {
+                        run10(&mut out);
+                        run5(&mut out);
+                    } else {
+                        run5(&mut out);
+                        run10(&mut out);
+                    }
+                }
+                out
+            }));
+        }
+        let mut t = table.lock().unwrap();
+        for h in fresh {
+            if let Ok((big, s, Ok(fp))) = h.join() {
+                record(&mut t, if big { "falcon1024" } else { "falcon512" }, s, "fresh-thread (alone)", fp);
+                rep.evaluations += 1;
+            }
+        }
+        for h in hist {
+            match h.join() {
+                Ok(v) => {
+                    for (big, s, who, r) in v {
+                        rep.evaluations += 1;
+                        if let Ok(fp) = r {
+                            record(&mut t, if big { "falcon1024" } else { "falcon512" }, s, &who, fp);
+                        }
+                    }
+                    rep.count("rare_branch_histories", 1);
+                }
+                Err(_) => rep.inconclusive("a rare-branch history thread died".into()),
+            }
+        }
+    }
     for (c, mut ch, out) in kids {
         let st = ch.wait();
         let text = std::fs::read_to_string(&out).unwrap_or_default();
